@@ -372,7 +372,20 @@ func genC12Case(r *Rng, tier string) (*c12Case, []string, bool) {
 	if r.Chance(1, 25) {
 		ntr = r.Range(7, 17)
 	}
+	many := r.Chance(1, 30)
+	if many {
+		// more tracks than a machine word has bits
+		ntr = r.Pick(31, 32, 33, 63, 64, 65, 66, 70, 100, 128, 129, 130, 257)
+		tags = append(tags, "many-tracks")
+	}
 	ticks, pat := genC12Ticks(r, ntr, big)
+	if many {
+		for i := range ticks {
+			if len(ticks[i]) > 2 {
+				ticks[i] = ticks[i][:2]
+			}
+		}
+	}
 	tags = append(tags, "pattern="+pat)
 	maxTick := 1
 	nEv := 0
